@@ -341,7 +341,9 @@ def translation_obligations(pid: str):
         res["failures"].append("translation tie: " + f)
     if fails:
         return res
-    for label, body in (("generated " + gen.name, strip_comments(text)), (client.equiv, etxt)):
+    pylib = COQ / "theories" / "TR" / "PyLib.v"
+    for label, body in (("generated " + gen.name, strip_comments(text)), (client.equiv, etxt),
+                        ("coq/theories/TR/PyLib.v", strip_comments(pylib.read_text()))):
         depth = 0                     # Variable / Hypothesis are allowed inside a Section only (as in audit_sources)
         for ln, line in enumerate(body.splitlines(), 1):
             if re.match(r"\s*Section\b", line):
